@@ -244,7 +244,37 @@ class ModelRegistry:
             return it.bi_str(it, ca)
         if clsref.name in ('builtins.bool',):
             return it.bi_bool(it, ca)
+        if clsref.name in ('builtins.int',):
+            return self.int_of(it, ca.args[0] if ca.args else 0)
         raise Unsupported(f'instantiation of library class {clsref}')
+
+    def int_of(self, it, v):
+        """int(v): identity on ints, 0/1 on bools, truncation / parsing (uninterpreted) on other convertible values,
+        TypeError / ValueError otherwise"""
+        st = it.st
+        if isinstance(v, bool) or isinstance(v, int):
+            return int(v)
+        if isinstance(v, str):
+            try:
+                return int(v)
+            except ValueError:
+                it.raise_builtin('ValueError', f'int({v!r})')
+        if isinstance(v, SymI):
+            return v
+        if isinstance(v, SymB):
+            return SymI(z3.If(v.t, 1, 0))
+        t = lift(v, st)
+        used(it, 'int(x): identity on int, 0/1 on bool, an uninterpreted truncation/parse on other convertible values '
+                 '(floats are opaque values), TypeError/ValueError on the rest')
+        INT_OF = z3.Function('int_of', PyV, IntS)
+        CONVERTIBLE = z3.Function('int_convertible', PyV, BoolS)
+        if st.branch(PyV.is_int_(t), 'int-of-int'):
+            return lower(t, st)
+        if st.branch(PyV.is_bool_(t), 'int-of-bool'):
+            return SymI(z3.If(PyV.b(t), 1, 0))
+        if st.branch(z3.And(t != NONE, CONVERTIBLE(t)), 'int-convertible'):
+            return SymI(INT_OF(t))
+        it.raise_builtin('TypeError', 'int() argument must be a string, a bytes-like object or a real number')
 
     def instantiate_repo(self, it, ci, ca):
         return self._try('instantiate_repo', it, ci, ca)
